@@ -24,3 +24,29 @@ def table(opname, expected, registered):
         print('REPLAY: VIOLATION-CONFIRMED the dispatch table does not route %s to %s' % (opname, expected))
     else:
         print('REPLAY: not reproduced by the sample computation')
+
+
+def call_check():
+    from nutils import SI
+    bad = [(SI.Length, '5'), (SI.Time, '7.5'), (SI.Velocity, '2m/5cm'), (SI.Length, '3s'), (SI.Dimensionless, '5m')]
+    good = [(SI.Length, '5m', SI.Length), (SI.Velocity, '8km/h', SI.Velocity), (SI.Dimensionless, '5', float), (SI.Dimensionless, '2m/5cm', float)]
+    for cls, s in bad:
+        try:
+            q = cls(s)
+        except SI.DimensionError:
+            continue
+        print('%s(%r) was accepted and returned %r of type %s' % (cls.__name__, s, q, type(q).__name__))
+        print('REPLAY: VIOLATION-CONFIRMED a quantity of the wrong dimension is accepted')
+        return
+    for cls, s, t in good:
+        try:
+            q = cls(s)
+        except Exception as e:
+            print('%s(%r) raised %s' % (cls.__name__, s, type(e).__name__))
+            print('REPLAY: VIOLATION-CONFIRMED a quantity of the right dimension is rejected')
+            return
+        if type(q) != t:
+            print('%s(%r) has type %s' % (cls.__name__, s, type(q).__name__))
+            print('REPLAY: VIOLATION-CONFIRMED')
+            return
+    print('REPLAY: not reproduced')
